@@ -147,7 +147,12 @@ def family():
     out.append([simple(res=[(1, True)]), simple(views=[("m", 2)]), simple(views=[("r", 3)], res=[(1, False)]), simple(views=[("r", 1)], res=[(2, True)])])
     out.append([simple(views=[("m", 2)]), simple(res=[(1, False)]), simple(views=[("r", 3)], res=[(1, True)])])
     out.append([flt(simple(views=[("m", 1)], res=[(2, True)]), *NEVER), flt(simple(views=[("m", 0)]), *H(2)), flt(simple(views=[("r", 0)], res=[(2, True)]), *NH(2)), flt(simple(views=[("r", 0)]), *NH(2))])
-    while len(out) < 64:
+    # a stage of three or four tasks of different reach that share tables pairwise; the next stage
+    # conflicts with exactly one of them on exactly one table
+    out.append([simple(views=[("m", 0)]), simple(views=[("m", 1)]), simple(views=[("r", 2)]), simple(views=[("r", 0)]), simple(views=[("r", 1)])])
+    out.append([simple(views=[("m", 0)]), simple(views=[("m", 1)]), simple(views=[("or", 2), ("r", 3)]), simple(views=[("r", 1)]), simple(views=[("r", 0)])])
+    out.append([simple(views=[("m", 2)]), simple(views=[("m", 3)]), simple(views=[("r", 0)], par=True), simple(views=[("r", 1)]), simple(views=[("r", 3)]), simple(views=[("r", 2)])])
+    while len(out) < 67:
         k = rnd.randint(2, 4)
         out.append([rand_task(rnd) for _ in range(k)])
     return out
